@@ -76,15 +76,18 @@ else
   cat "$TLOG.out" >> "$TLOG"
   treports=$(grep -c 'WARNING: ThreadSanitizer' "$TLOG")
   # a report block runs from its WARNING line to the following SUMMARY line; it is
-  # attributed to quizx when any frame in it is a quizx function or file
-  tquizx=$(awk '/WARNING: ThreadSanitizer/{blk=1; hit=0} blk && (/quizx::/ || /quizx\/src\//){hit=1} /SUMMARY: ThreadSanitizer/{if (blk && hit) n++; blk=0} END{print n+0}' "$TLOG")
+  # attributed to quizx when one of the two innermost frames (#0/#1: the racing access
+  # itself, allowing for an interceptor such as memcpy on top) of any of its stacks is a
+  # quizx function or file. quizx frames further out are only the callers of the
+  # dependency in which the report lies.
+  tquizx=$(awk '/WARNING: ThreadSanitizer/{blk=1; hit=0} blk && /^ *#[01] / && (/quizx::/ || /quizx\/src\//){hit=1} /SUMMARY: ThreadSanitizer/{if (blk && hit) n++; blk=0} END{print n+0}' "$TLOG")
   truns=$(grep -m1 -o 'runs=[0-9]*' "$TLOG.out" | cut -d= -f2); truns=${truns:-0}
   if grep -q '^TSAN_C05 MISMATCH' "$TLOG.out"; then
     tstatus=violation; tclass=result-mismatch-under-tsan
     treason=$(grep -m1 '^TSAN_C05 MISMATCH' "$TLOG.out" | jstr)
   elif [ "$tquizx" -gt 0 ]; then
     tstatus=violation; tclass=tsan-report-in-quizx-frame
-    treason=$(awk '/WARNING: ThreadSanitizer/{blk=1; buf=""} blk{buf=buf $0 " | "} /SUMMARY: ThreadSanitizer/{if (blk && buf ~ /quizx/) {print buf; exit} blk=0}' "$TLOG" | jstr)
+    treason=$(awk '/WARNING: ThreadSanitizer/{blk=1; hit=0; buf=""} blk{buf=buf $0 " | "} blk && /^ *#[01] / && (/quizx::/ || /quizx\/src\//){hit=1} /SUMMARY: ThreadSanitizer/{if (blk && hit) {print buf; exit} blk=0}' "$TLOG" | jstr)
   elif [ "$treports" -gt 0 ]; then
     tstatus=inconclusive; tclass=external-report
     treason=$(grep -m1 'SUMMARY: ThreadSanitizer' "$TLOG" | jstr)
